@@ -238,6 +238,20 @@ class Check:
             if rc != 0:
                 self.broken.append(("correspondence", "harness run (%s)" % prof, out[-800:]))
                 self.say("[harness] run (%s) FAILED rc=%d (%.1fs)\n%s" % (prof, rc, dt, out[-800:]))
+                # a harness that panicked outside `catch` still writes what it had collected, with a failure pointing at
+                # the case it was evaluating (Sink's Drop): use it, so that the crash does not hide the input
+                try:
+                    meta = json.load(open(os.path.join(d, "meta.json")))
+                    descs = [json.loads(l) for l in open(os.path.join(d, "cases.jsonl"), encoding="utf-8")]
+                    if meta.get("extra", {}).get("harness_crashed") and meta.get("seed") == self.seed:
+                        for f in meta["rust_failures"]:
+                            self.failing.append({"case": f["case"], "what": f["what"], "cls": f.get("class", ""),
+                                                 "by": "%s (%s)" % ("harness crash" if f.get("by") == "harness-crash" else "implementation oracle", prof),
+                                                 "desc": descs[f["case"]], "profile": prof})
+                        if not self.meta:
+                            self.meta, self.descs = meta, descs
+                except Exception:  # noqa
+                    pass
                 continue
             meta = json.load(open(os.path.join(d, "meta.json")))
             descs = [json.loads(l) for l in open(os.path.join(d, "cases.jsonl"), encoding="utf-8")]
